@@ -552,6 +552,9 @@ func (c *Ctx) asgKinds(s *tplState, nestDepth int, maxContents int) []asg {
 	leaf := []asg{{kind: "model.SkipField"}, {kind: "model.NoMatchField"}, {kind: "model.SimpleField"}, {kind: "model.SimpleField", err: true},
 		{kind: "model.SliceAssignment"}, {kind: "model.SliceLoopAssignment"}, {kind: "model.SliceTypecastAssignment"}}
 	out := append([]asg{}, leaf...)
+	// sources that are getter calls (x.G()): the text of the source expression is a call, not a selector
+	out = append(out, asg{kind: "model.SimpleField", getter: true}, asg{kind: "model.SliceAssignment", getter: true},
+		asg{kind: "model.SliceLoopAssignment", getter: true}, asg{kind: "model.SliceTypecastAssignment", getter: true})
 	inner := []asg{{kind: "model.SimpleField"}, {kind: "model.SimpleField", err: true}, {kind: "model.NoMatchField"}, {kind: "model.SliceLoopAssignment"}}
 	var seqs [][]asg
 	for _, a := range inner {
@@ -692,7 +695,7 @@ func sliceAndCommentShape(m member, j judged) []string {
 	collect = func(a asg, dst, src, tag string) {
 		switch a.kind {
 		case "model.SliceAssignment", "model.SliceLoopAssignment", "model.SliceTypecastAssignment":
-			wants = append(wants, want{a.kind, dst + ".S" + tag, src + ".S" + tag})
+			wants = append(wants, want{a.kind, dst + ".S" + tag, a.sliceSrc(src, tag)})
 		case "model.SkipField":
 			comments = append(comments, "// skip: "+dst+".F"+tag)
 		case "model.NoMatchField":
@@ -789,6 +792,8 @@ func sliceAndCommentShape(m member, j judged) []string {
 			rhs := src + ".F" + tag
 			if a.err {
 				rhs = "conv(" + rhs + ")"
+			} else if a.getter {
+				rhs = src + ".GF" + tag + "()"
 			}
 			simples = append(simples, [2]string{dst + ".F" + tag, rhs})
 		case "model.NestStruct":
